@@ -24,6 +24,7 @@ import (
 	"github.com/cockroachdb/pebble/internal/verif/vcommon"
 	"github.com/cockroachdb/pebble/objstorage"
 	"github.com/cockroachdb/pebble/sstable"
+	"github.com/cockroachdb/pebble/sstable/block"
 )
 
 type caseDesc struct {
@@ -602,8 +603,26 @@ func runCopyCase(r *vcommon.Report, i int, rng *rand.Rand) {
 	d.Visible = len(want)
 
 	out := &objstorage.MemObj{}
+	// The caller's WriterOptions normally come from the same DB options that
+	// wrote the input (same checksum type). CopySpan takes arbitrary
+	// WriterOptions though, and it forces only the table format to the
+	// input's; a quarter of the cases therefore leave Checksum at its default.
 	wo := sstable.WriterOptions{Comparer: ks.Comparer, KeySchema: t.WOpts.KeySchema, TableFormat: t.WOpts.TableFormat,
-		BlockSize: []int{0, 32, 4096}[rng.IntN(3)], Compression: t.WOpts.Compression}
+		BlockSize: []int{0, 32, 4096}[rng.IntN(3)], Compression: t.WOpts.Compression, Checksum: t.WOpts.Checksum}
+	if rng.IntN(4) == 0 {
+		wo.Checksum = block.ChecksumTypeNone // = default (crc32c)
+	}
+	inSum, outSum := t.Opts.Checksum, wo.Checksum.String()
+	if inSum == "none" {
+		inSum = "crc32c"
+	}
+	if outSum == "none" {
+		outSum = "crc32c"
+	}
+	checksumDiffers := inSum != outSum
+	if checksumDiffers {
+		r.Count("copies_with_other_checksum_type_in_writer_options", 1)
+	}
 	size, err := sstable.CopySpan(context.Background(), sstmodel.NewReadable(t.Data), rd, rng.IntN(7), out, wo, start, end)
 	r.SetAdd("formats", t.Opts.Format)
 	r.SetAdd("keyspace", t.Opts.KeySpace)
@@ -649,6 +668,15 @@ func runCopyCase(r *vcommon.Report, i int, rng *rand.Rand) {
 	got, err := sstmodel.ScanPoints(it, true)
 	cerr := it.Close()
 	if err != nil || cerr != nil {
+		if checksumDiffers && !rd.Attributes.Intersects(unsupported) {
+			// Separate class: the input's raw blocks (with trailers of the
+			// input's checksum type) were copied into a file whose footer
+			// records WriterOptions.Checksum.
+			r.Violate("copyspan-checksum-type", fmt.Sprintf("CopySpan of a %s table with WriterOptions.Checksum=%s returned nil but the output cannot be read: %v", inSum, outSum, err),
+				map[string]any{"desc": d, "input_checksum": inSum, "writer_checksum": outSum, "error": fmt.Sprint(err)},
+				map[string]any{"input_checksum": inSum, "writer_checksum": outSum})
+			return
+		}
 		violate(r, d, "copyspan-unreadable", fmt.Sprintf("scan of output: err=%v close=%v", err, cerr), nil)
 		return
 	}
